@@ -92,6 +92,9 @@ MAIN = r'''
 #ifdef USE_INC
 #include "probe_inc.h"
 #endif
+#ifdef USE_INC_ANGLE
+#include <probe_inc.h>
+#endif
 #ifdef USE_SYS
 #include "sys_probe.h"
 #endif
@@ -209,7 +212,8 @@ def all_cases(tier, seed):
         # the same macro defined twice (same list / global then target): the
         # later definition is the one the compiler must see
         for special in ('redefine-same-list', 'redefine-global-target',
-                        'env-two-token-flags'):
+                        'env-two-token-flags', 'env-iquote-same-dir',
+                        'pch-in-shared-library', 'pch-in-dual-library'):
             cases.append({'compiler': cname, 'lang': lang, 'cenv': cenv,
                           'placement': 'target', 'envflags': False,
                           'opts': [], 'special': special})
@@ -266,6 +270,20 @@ def render(case, src):
         copts += ["opts.define('MYDEF', '42')"]
     elif special == 'env-two-token-flags':
         defs += ['USE_INC', 'USE_SYS']
+    elif special == 'env-iquote-same-dir':
+        # the directory is on the quote chain through CPPFLAGS; the script
+        # adds it to the bracket chain
+        defs += ['USE_INC_ANGLE']
+        sdk = os.path.join(os.path.dirname(src), 'sdk', 'include')
+        sandbox.write_file(os.path.join(sdk, 'probe_inc.h'),
+                           '#define PROBE_INC 42\n')
+        copts += ["opts.include_dir(header_directory({!r}))".format(sdk)]
+    elif special in ('pch-in-shared-library', 'pch-in-dual-library'):
+        defs += ['USE_EXT']
+        sandbox.write_file(
+            os.path.join(src, 'plib' + ext),
+            ('extern "C" ' if lang != 'c' else '') +
+            'int ext_value(void) { return PCH_MACRO * 10; }\n')
     sandbox.write_file(os.path.join(src, 'main' + ext), MAIN)
     sandbox.write_file(os.path.join(src, 'inc', 'probe_inc.h'),
                        '#define PROBE_INC 42\n')
@@ -297,6 +315,12 @@ def render(case, src):
             kw.append('link_options=[{}]'.format(', '.join(lopts)))
     if pch:
         kw.append("pch='pch.h'")
+    if special in ('pch-in-shared-library', 'pch-in-dual-library'):
+        # the link step adds its own compile options (-fPIC ...): the
+        # precompiled header must be built with them too
+        L.append("plib = {}('plib', ['plib{}'], pch='pch.h')".format(
+            'shared_library' if 'shared' in special else 'library', ext))
+        kw.append('libs=[plib]')
     L.append("executable('prog', ['main{}']{})".format(
         ext, ''.join(', ' + k for k in kw)))
     sandbox.write_file(os.path.join(src, 'build.bfg'), '\n'.join(L) + '\n')
@@ -342,6 +366,9 @@ def check_case(rec, case):
             extra['CFLAGS' if lang == 'c' else 'CXXFLAGS'] = \
                 '-O2 -DFROM_ENV=5 -DMYDEF=13'
             extra['CPPFLAGS'] = '-DFROM_CPP=6'
+        if case.get('special') == 'env-iquote-same-dir':
+            extra['CPPFLAGS'] = "-iquote '{}'".format(
+                os.path.join(tmp, 'sdk', 'include'))
         if case.get('special') == 'env-two-token-flags':
             # two-word flags whose first word occurs in both variables
             extra['CFLAGS' if lang == 'c' else 'CXXFLAGS'] = \
@@ -350,7 +377,10 @@ def check_case(rec, case):
             extra['CPPFLAGS'] = "-isystem '{}' -D FROM_CPP=6".format(
                 os.path.join(src, 'sysinc'))
         env = sandbox.base_env(os.path.join(tmp, 'home'), extra=extra)
-        r = sandbox.configure(src, bld, env, backend='make')
+        r = sandbox.configure(
+            src, bld, env, backend='make',
+            extra=(['--enable-shared', '--enable-static']
+                   if case.get('special') == 'pch-in-dual-library' else []))
         if r.rc != 0:
             rec.fail('option/configure-failed/' + key, 'configure failed: ' +
                      r.err.strip()[-600:], jcase)
@@ -414,6 +444,15 @@ def check_case(rec, case):
             rec.fail('option/no-effect/' + sp, '{}: the later define() of a '
                      'macro must win: MYDEF={!r}, expected 42'.format(
                          case['compiler'], out.get('MYDEF')), jcase)
+        if sp == 'env-iquote-same-dir' and out.get('INC') != '42':
+            rec.fail('option/no-effect/' + sp, '{}: include_dir() of a '
+                     'directory that CPPFLAGS names with -iquote: INC={!r}'
+                     .format(case['compiler'], out.get('INC')), jcase)
+        if sp in ('pch-in-shared-library', 'pch-in-dual-library') and \
+                out.get('EXT') != '50':
+            rec.fail('option/no-effect/' + sp, '{}: the library built with a '
+                     'precompiled header returns EXT={!r}, expected 50'
+                     .format(case['compiler'], out.get('EXT')), jcase)
         if sp == 'env-two-token-flags' and (
                 out.get('INC') != '42' or out.get('SYS') != '7' or
                 out.get('FROM_ENV') != '5' or out.get('FROM_CPP') != '6'):
